@@ -328,7 +328,7 @@ def run_child(job, workdir, tag, timeout=60, strace_out=None):
     # from the tree under test by this run and never reused by another run
     env = child_env({"PYTHONPYCACHEPREFIX": os.path.join(os.environ.get("VERIF_SCRATCH", SCRATCH), "pyc")})
     env.pop("PYTHONDONTWRITEBYTECODE", None)
-    cmd = [PY, "-m", "vf.logx", "child", jf]
+    cmd = [PY, "-S", "-m", "vf.logx", "child", jf]     # -S: ioflo comes from PYTHONPATH only
     if strace_out:
         cmd = ["strace", "-f", "-s", "64", "-e", "trace=write,fsync,rename,openat,close",
                "-o", strace_out] + cmd
